@@ -13,7 +13,7 @@ from .. import tlc
 from ..common import Run
 from ..concretize import gen_key, render_gen
 from ..pool import pmap
-from ..project import has_error, has_error_mod_tc, items
+from ..project import has_error, has_error_mod_tc, items, line_info
 
 UNSUPPORTED = {"uri", "legacy_let"}     # constructs the library documents as unsupported (ValueError allowed)
 
@@ -66,7 +66,7 @@ def _case_line(c: dict) -> str | None:
         return None
     return json.dumps({"id": c["id"], "t0": c["text"], "inp": items(c["text"]), "out": items(r["out"]),
                        "o1": r["out"], "o2": r.get("out2", "<<second pass raised>>"),
-                       "out_err": has_error_mod_tc(r["out"])}, ensure_ascii=False)
+                       "out_err": has_error_mod_tc(r["out"]), "lines": line_info(r["out"])}, ensure_ascii=False)
 
 
 def judge(cases: list[dict], run: Run, shards: int = 8, label: str = "Fmt_Trace") -> dict:
